@@ -53,7 +53,7 @@ WellFormed(d, ver) ==
 
 Clauses(e) ==
     LET ver == e.ver
-        ok == e.out.exc = ""
+        ok == e.out.exc = "" /\ e.out.unreadable = ""
         c == [e.c EXCEPT !.flags = ToSet(e.c.flags)]
         c0 == [e.c0 EXCEPT !.flags = ToSet(e.c0.flags)]
         \* for C05/C06 nested code constants are identified by meaning, not by bits
@@ -79,6 +79,7 @@ Clauses(e) ==
         props == SelectSeq(allprops, LAMBDA x: x[1] \notin {"P09.additional", "P09.justified", "P13.targets", "P14.iter", "P14.all"})
         \* the data's block boundaries are exactly the jump targets (what a decoder can give back)
         canonical == \E i \in DOMAIN allprops : allprops[i][1] = "P13.targets" /\ allprops[i][2]
+        ok0 == e.out.exc = ""
     IN <<
         <<"ENV.dis", ok => U!DisRead(c, scale) = c.dis>>,
         <<"ENV.lines", ok => cpylines = c.cpy_lines>>,
@@ -87,7 +88,7 @@ Clauses(e) ==
        \o props
        \o <<
         \* ---------------- C01 (events whose input data was decoded from a real code object)
-        <<"P01.to_code", (e.src = "decoded") => ok>>,
+        <<"P01.to_code", (e.src = "decoded") => ok0>>,
         <<"P01.identical", (e.src = "decoded" /\ e.rt.ran /\ ok) => e.rt.same>>,
         \* ---------------- C05 / C06 (events whose input data is normalize(from_code(c0)))
         <<"ENV.dis0", e.has_c0 => U!DisRead(c0, scale) = c0.dis>>,
@@ -101,13 +102,15 @@ Clauses(e) ==
         <<"P06.idempotent", e.has_c0 => (e.idem.eq /\ e.idem.hash /\ NZ!Core(NZ!Normalize(e.d)) = NZ!Core(e.d))>>,
         \* ---------------- C03
         <<"P03.terminates", ~e.out.timeout>>,
-        <<"P03.succeeds", WellFormed(e.d, ver) => ok>>,
+        \* whatever came out can be read by CPython's disassembler (no operand outside its table)
+        <<"P03.readable", ok0 => e.out.unreadable = "">>,
+        <<"P03.succeeds", WellFormed(e.d, ver) => ok0>>,
         <<"P03.freevars", ok => e.d.freevars = c.freevars>>,
         <<"P03.again", (ok /\ e.again.ran /\ canonical) => e.again.ok>>,
         <<"P03.passbound", e.hook => Len(e.relax) <= 3 * njumps + 1>>,
         \* ---------------- binding of Encode.tla to the code
-        <<"M.exc", (m.exc = "") = ok>>,
-        <<"M.exc_type", (m.exc # "" /\ ~ok) => m.exc = e.out.exc_type>>,
+        <<"M.exc", (m.exc = "") = ok0>>,
+        <<"M.exc_type", (m.exc # "" /\ ~ok0) => m.exc = e.out.exc_type>>,
         <<"M.units", same => m.units = outUnits>>,
         <<"M.tables", same => /\ m.names = c.names /\ m.varnames = c.varnames /\ m.cellvars = c.cellvars
                               /\ m.consts = c.consts /\ m.freevars = c.freevars>>,
